@@ -165,8 +165,11 @@ Definition is_decl_op (x : op) : bool :=
   end.
 
 (* the module discipline: classes are declared before instances receive declarations.  Only then
-   is a provides-declaration guaranteed to describe the present class (otherwise the staleness that
-   property C01 reports may make the fresh process differ, which is not a pickling matter) *)
+   is an instance's provides-declaration guaranteed to describe the present class.  Otherwise it
+   may be stale (the subject of property C01; since the C01 repair a stale declaration is no longer
+   shared, so unpickling -- in the same or another process -- builds the current one, whose
+   list(spec) legitimately differs from the stale original's).  For such histories the lists of
+   instance declarations are not judged here; the model still predicts them exactly. *)
 Fixpoint module_ordered (seen_inst : bool) (ops : list op) : bool :=
   match ops with
   | [] => true
@@ -179,14 +182,15 @@ Fixpoint module_ordered (seen_inst : bool) (ops : list op) : bool :=
 Definition same_lists (io : item_obs) (o : obs) : bool :=
   lnat_eqb (ob_after o) (io_before io) && lnat_eqb (ob_fafter o) (io_fbefore io).
 
-Definition spec_live (io : item_obs) (o : obs) : bool :=
+Definition spec_live (ordered : bool) (io : item_obs) (o : obs) : bool :=
   ob_ok o && Nat.eqb (ob_badops o) 0 &&
   match io_item io with
   | ItIface _ | ItClass _ => ob_same o && ob_eq o && ob_hash o
   | ItImpl _ => ob_same o && ob_eq o && ob_hash o && same_lists io o
   | ItCProv _ => same_lists io o
-  | ItProv _ => same_lists io o && (if ob_same o then ob_eq o && ob_hash o else true)
-  | ItInst _ => ob_struct o && same_lists io o
+  | ItProv _ => (if ordered then same_lists io o else true)
+                && (if ob_same o then ob_eq o && ob_hash o && same_lists io o else true)
+  | ItInst _ => ob_struct o && (if ordered then same_lists io o else true)
   end.
 
 Definition spec_xproc (ordered : bool) (io : item_obs) (o : obs) : bool :=
@@ -204,5 +208,5 @@ Definition check_spec (c : case_t) : bool :=
   let ordered := module_ordered false ops in
   forallb (fun io =>
     all_protocols (io_live io) && all_protocols (io_xproc io)
-    && forallb (spec_live io) (io_live io)
+    && forallb (spec_live ordered io) (io_live io)
     && forallb (spec_xproc ordered io) (io_xproc io)) items.
